@@ -3,11 +3,11 @@ import LemoModel.Sync
 namespace Driver.C20
 open LemoModel LemoModel.Sync Driver
 
-/-- The driver runs the model of the code as it is in /repo NOW (repaired Add / IsExit / flush):
-    `addLive`, `isExitFixed`, `ccPushLive`.  (`Option` is kept for the line protocol; it is always `some`.) -/
+/-- The driver runs the model of the code as it is in /repo NOW (live model): `addLive`, `isExitFixed`,
+    `ccPushLive`, `iterateP true`, `rcvBlocks`/`tick`/`pmInsert` with all repair flags on, `handleTxs _ true`. -/
 structure St where
-  bc : Option BlockCache := some {}
-  cc : Option ConfirmCache := some []
+  bc : BlockCache := {}
+  cc : ConfirmCache := []
   node : Node := { chain := { known := [] } }
   q : Nat := 1
 
@@ -25,18 +25,11 @@ def dumpBC (c : BlockCache) : String :=
   let es := c.cache.map (fun g => s!"{g.height}@{firstIdx g.gid c.cache 0}[{showKeys g.blocks}]")
   s!"n={c.cache.length} size={size c} first={firstHeight c} :: " ++ joinWith " " es
 
-def showBC : Option BlockCache → String
-  | none => "deadlock"
-  | some c => dumpBC c
-
 def mkBlk (h tag : Nat) : Blk := { height := h, hash := h * 1000 + tag, parent := 0 }
 
-def fillBC (limit : Nat) : Nat → Nat → Option BlockCache → Option BlockCache
+def fillBC (limit : Nat) : Nat → Nat → BlockCache → BlockCache
   | 0, _, c => c
-  | n + 1, h, c =>
-    match c with
-    | none => none
-    | some c => fillBC limit n (h + 1) (some (addLive limit (mkBlk h 0) c))
+  | n + 1, h, c => fillBC limit n (h + 1) (addLive limit (mkBlk h 0) c)
 
 /-- canonical text of the confirm cache: heights ascending, hashes ascending, sigs in arrival order -/
 def dumpCC (c : ConfirmCache) : String :=
@@ -47,16 +40,9 @@ def dumpCC (c : ConfirmCache) : String :=
     s!"{h}:" ++ "{" ++ joinWith ";" (ks.map (fun k => s!"{k}=" ++ joinWith "," (((alGet k hm).getD []).map (fun d => toString d.sig)))) ++ "}")
   s!"n={c.length} size={ccSize c} :: " ++ joinWith " " es
 
-def showCC : Option ConfirmCache → String
-  | none => "deadlock"
-  | some c => dumpCC c
-
-def fillCC (limit : Nat) : Nat → Nat → Option ConfirmCache → Option ConfirmCache
+def fillCC (limit : Nat) : Nat → Nat → ConfirmCache → ConfirmCache
   | 0, _, c => c
-  | n + 1, h, c =>
-    match c with
-    | none => none
-    | some c => fillCC limit n (h + 1) (some (ccPushLive limit { hash := h, height := h, sig := 0 } c))
+  | n + 1, h, c => fillCC limit n (h + 1) (ccPushLive limit { hash := h, height := h, sig := 0 } c)
 
 /-- segment block `k` over a base block of height `base`: hash k, parent k-1 -/
 def segBlk (base k : Nat) : Blk := { height := base + k, hash := k, parent := k - 1 }
@@ -66,68 +52,79 @@ def showNode (q : Nat) (n : Node) : String :=
 
 def nats? (ws : List String) : Option (List Nat) := ws.mapM (·.toNat?)
 
+def showRace (n : Node) (maxK k : Nat) : String :=
+  let known := (sortN (n.chain.known.map (·.hash))).filter (fun h => h ≤ maxK)
+  let att := sortN ((n.chain.attached.filter (fun p => p.1 == k)).map (·.2))
+  s!"known={joinWith "," (known.map toString)} attached={joinWith "," (att.map toString)} confirms-cached={ccSize n.cc}"
+
+def parseTx (w : String) : Option (Nat × Bool) :=
+  match w.splitOn ":" with
+  | [i, v] => match i.toNat?, v.toNat? with
+    | some i, some v => some (i, v == 1)
+    | _, _ => none
+  | _ => none
+
 def step (s : St) (w : List String) : St × String :=
   match w with
-  | ["new"] => ({ s with bc := some {} }, "ok")
+  | ["new"] => ({ s with bc := {} }, "ok")
   | ["add", h, t] =>
-    match h.toNat?, t.toNat?, s.bc with
-    | some h, some t, some c => let r := some (addLive 10240 (mkBlk h t) c); ({ s with bc := r }, showBC r)
-    | some _, some _, none => (s, "deadlock")
-    | _, _, _ => (s, "bad-op")
-  | ["rm", h, t] =>
-    match h.toNat?, t.toNat?, s.bc with
-    | some h, some t, some c => let r := remove (mkBlk h t) c; ({ s with bc := some r }, dumpBC r)
-    | some _, some _, none => (s, "deadlock")
-    | _, _, _ => (s, "bad-op")
-  | ["clear", h] =>
-    match h.toNat?, s.bc with
-    | some h, some c => let r := clear h c; ({ s with bc := some r }, dumpBC r)
-    | some _, none => (s, "deadlock")
+    match h.toNat?, t.toNat? with
+    | some h, some t => let r := addLive 10240 (mkBlk h t) s.bc; ({ s with bc := r }, dumpBC r)
     | _, _ => (s, "bad-op")
+  | ["rm", h, t] =>
+    match h.toNat?, t.toNat? with
+    | some h, some t => let r := remove (mkBlk h t) s.bc; ({ s with bc := r }, dumpBC r)
+    | _, _ => (s, "bad-op")
+  | ["clear", h] =>
+    match h.toNat? with
+    | some h => let r := clear h s.bc; ({ s with bc := r }, dumpBC r)
+    | _ => (s, "bad-op")
   | ["iter", m, r] =>
-    match m.toNat?, r.toNat?, s.bc with
-    | some m, some r, some c =>
-      let res := iterate (fun (_ : Unit) b => ((), decide (b.hash % m = r))) () c
+    match m.toNat?, r.toNat? with
+    | some m, some r =>
+      let res := iterateP true (fun (_ : Unit) b => ((), decide (b.hash % m = r))) () s.bc
       let vis := res.2.2.map (fun v => s!"{v.1}[{showKeys v.2}]")
-      ({ s with bc := some res.2.1 }, "visit " ++ joinWith " " vis ++ " => " ++ dumpBC res.2.1)
-    | some _, some _, none => (s, "deadlock")
-    | _, _, _ => (s, "bad-op")
+      ({ s with bc := res.2.1 }, "visit " ++ joinWith " " vis ++ " => " ++ dumpBC res.2.1)
+    | _, _ => (s, "bad-op")
   | ["isexit", h, t, qh] =>
-    match h.toNat?, t.toNat?, qh.toNat?, s.bc with
-    | some h, some t, some qh, some c => (s, toString (isExitFixed (h * 1000 + t) qh c))
-    | some _, some _, some _, none => (s, "deadlock")
-    | _, _, _, _ => (s, "bad-op")
+    match h.toNat?, t.toNat?, qh.toNat? with
+    | some h, some t, some qh => (s, toString (isExitFixed (h * 1000 + t) qh s.bc))
+    | _, _, _ => (s, "bad-op")
   | ["fill", lo, n] =>
     match lo.toNat?, n.toNat? with
-    | some lo, some n =>
-      let r := fillBC 10240 n lo (some {})
-      ({ s with bc := r }, match r with | none => "deadlock" | some c => s!"len={c.cache.length}")
+    | some lo, some n => let r := fillBC 10240 n lo {}; ({ s with bc := r }, s!"len={r.cache.length}")
     | _, _ => (s, "bad-op")
-  | ["cnew"] => ({ s with cc := some [] }, "ok")
-  | ["cpush", hash, h, sig] =>
-    match hash.toNat?, h.toNat?, sig.toNat?, s.cc with
-    | some hash, some h, some sig, some c =>
-      let r := some (ccPushLive 10240 { hash := hash, height := h, sig := sig } c)
-      ({ s with cc := r }, showCC r)
-    | some _, some _, some _, none => (s, "deadlock")
-    | _, _, _, _ => (s, "bad-op")
-  | ["cpop", h, hash] =>
-    match h.toNat?, hash.toNat?, s.cc with
-    | some h, some hash, some c =>
-      let r := ccPop h hash c
-      ({ s with cc := some r.2 }, "pop [" ++ joinWith "," (r.1.map (fun d => toString d.sig)) ++ "] => " ++ dumpCC r.2)
-    | some _, some _, none => (s, "deadlock")
-    | _, _, _ => (s, "bad-op")
-  | ["cclear", h] =>
-    match h.toNat?, s.cc with
-    | some h, some c => let r := ccClear h c; ({ s with cc := some r }, dumpCC r)
-    | some _, none => (s, "deadlock")
-    | _, _ => (s, "bad-op")
-  | ["cfill", lo, n] =>
+  -- `drainfill lo n`: one block (height lo+n+5) waits in the cache while `n` ascending heights are added and
+  -- drained one at a time
+  | ["drainfill", lo, n] =>
     match lo.toNat?, n.toNat? with
     | some lo, some n =>
-      let r := fillCC 10240 n lo (some [])
-      ({ s with cc := r }, match r with | none => "deadlock" | some c => s!"len={c.length}")
+      let keeper := lo + n + 5
+      let c0 := addLive 10240 (mkBlk keeper 0) {}
+      let r := (List.range n).foldl (fun c i =>
+        (iterateP true (fun (_ : Unit) b => ((), decide (b.height < keeper))) () (addLive 10240 (mkBlk (lo + i) 0) c)).2.1) c0
+      ({ s with bc := r }, s!"len={r.cache.length} size={size r}")
+    | _, _ => (s, "bad-op")
+  | ["cnew"] => ({ s with cc := [] }, "ok")
+  | ["cpush", hash, h, sig] =>
+    match hash.toNat?, h.toNat?, sig.toNat? with
+    | some hash, some h, some sig =>
+      let r := ccPushLive 10240 { hash := hash, height := h, sig := sig } s.cc
+      ({ s with cc := r }, dumpCC r)
+    | _, _, _ => (s, "bad-op")
+  | ["cpop", h, hash] =>
+    match h.toNat?, hash.toNat? with
+    | some h, some hash =>
+      let r := ccPop h hash s.cc
+      ({ s with cc := r.2 }, "pop [" ++ joinWith "," (r.1.map (fun d => toString d.sig)) ++ "] => " ++ dumpCC r.2)
+    | _, _ => (s, "bad-op")
+  | ["cclear", h] =>
+    match h.toNat? with
+    | some h => let r := ccClear h s.cc; ({ s with cc := r }, dumpCC r)
+    | _ => (s, "bad-op")
+  | ["cfill", lo, n] =>
+    match lo.toNat?, n.toNat? with
+    | some lo, some n => let r := fillCC 10240 n lo []; ({ s with cc := r }, s!"len={r.length}")
     | _, _ => (s, "bad-op")
   -- receive loop over the abstract chain (segment block k = hash k, parent k-1, height base+k)
   | ["node", base, q] =>
@@ -153,6 +150,52 @@ def step (s : St) (w : List String) : St × String :=
     | some a => let n := tick a s.node; ({ s with node := n }, showNode s.q n)
     | none => (s, "bad-op")
   | ["stable"] => let n := onStable (stableHeight s.q s.node.chain) s.node; ({ s with node := n }, showNode s.q n)
+  | ["reqs"] => (s, "reqs " ++ joinWith "," ((sortN s.node.requests).map toString))
+  -- scripted schedules (base 5)
+  | ["race", "confirm-during-insert", v] =>
+    let n0 : Node := { chain := { known := [segBlk 5 0] } }
+    match v with
+    | "0" =>
+      let n := (pmInsertG true [{ hash := 1, height := 6, sig := 7 }] { n0 with peerMax := 6 } (segBlk 5 1)).1
+      (s, showRace n 2 1)
+    | "1" =>
+      let n1 := rcvBlocks (addLive 10240) 1 (rcvBlocks (addLive 10240) 1 n0 [segBlk 5 2]) [segBlk 5 1]
+      let r := iterateP true (fun pend b => tickLater n1.chain pend b) [] n1.bc
+      let n2 := (pmInsertG true [{ hash := 2, height := 7, sig := 7 }] { n1 with bc := r.2.1 } (segBlk 5 2)).1
+      (s, showRace n2 2 2)
+    | "2" =>
+      let n1 := rcvBlocks (addLive 10240) 1 n0 [segBlk 5 1]
+      let n2 := rcvConfirmStale true n1 { hash := 1, height := 6, sig := 7 }
+      (s, showRace n2 2 1)
+    | _ => (s, "bad-op")
+  | ["race", "duplicate-insert-break"] =>
+    let n0 : Node := { chain := { known := [segBlk 5 0] } }
+    let n1 := rcvBlocks (addLive 10240) 1 (rcvBlocks (addLive 10240) 1 n0 [segBlk 5 2]) [segBlk 5 1]
+    let r := iterateP true (fun pend b => tickLater n1.chain pend b) [] n1.bc
+    let n2 := rcvBlocksG true (some 2) (addLive 10240) 1 { n1 with bc := r.2.1 } [segBlk 5 2, segBlk 5 3]
+    let n3 := tick true (tick true n2)
+    let known := sortN (n3.chain.known.map (·.hash))
+    (s, s!"known={joinWith "," (known.map toString)} cache={size n3.bc}")
+  | ["race", "timer-requests"] =>
+    let n0 : Node := { chain := { known := [segBlk 5 0] } }
+    let r := rcvBlocks (addLive 10240) 1
+    let n1 := tick true (r (r (r n0 [segBlk 5 3]) [segBlk 5 5]) [segBlk 5 1, segBlk 5 2])
+    let n2 := tick true n1
+    let tr := n2.requests.take (n2.requests.length - n1.requests.length)
+    let known := sortN (n2.chain.known.map (·.hash))
+    (s, s!"known={joinWith "," (known.map toString)} cache={size n2.bc} first={firstHeight n2.bc} timer-requests={joinWith "," (tr.reverse.map toString)}")
+  -- handleTxsMsg: `txs id:valid ...` on an empty pool
+  | "txs" :: pre :: ws =>
+    let pool0 : Option (List Nat) :=
+      if pre == "pool:-" then some [] else (((pre.splitOn ":").getD 1 "").splitOn ",").mapM (·.toNat?)
+    match pool0, ws.mapM parseTx with
+    | some pool0, some l =>
+      let valid := fun i => l.any (fun p => p.1 == i && p.2)
+      let ids := l.map (·.1)
+      let calls := txsReach valid true ids
+      let pool := handleTxs valid true pool0 ids
+      (s, s!"calls={joinWith "," ((sortN calls).map toString)} pool={joinWith "," ((sortN pool).map toString)} events={pool.length - pool0.length}")
+    | _, _ => (s, "bad-op")
   | _ => (s, "bad-op")
 
 end Driver.C20
